@@ -115,3 +115,8 @@ MUTANTS = [
 # SESSION7 additions to the claim (clauses added in DESIGN section 12)
 CLAIM['technique'] += '; copy guard shared with C08'
 CLAIM['text'] += ' C11-f: the copy step of a restart uses source chunks only, under the full match guard.'
+
+
+# SESSION7b additions to the claim (round 8, DESIGN 12.6)
+CLAIM['technique'] += '; no-forward-seek on the download and copy paths'
+CLAIM['text'] += ' C11-g: what was received and verified is on disk.'
